@@ -544,7 +544,12 @@ func (j *jsonReader) DateTime(tag int) (time.Time, error) {
 		if err != nil {
 			return t, err
 		}
-		return t.Local(), j.Next()
+		t = t.Local()
+		if t.Year() > 9999 {
+			// A zone offset can put the instant beyond year 9999: such a date cannot be written back in RFC 3339
+			return time.Time{}, Errorf("date-time is out of range")
+		}
+		return t, j.Next()
 	default:
 		return time.Time{}, Errorf("invalid date-time value: %q", val)
 	}
